@@ -66,6 +66,16 @@ def run(ctx):
     texts += [random_unicode(rng, 60) for _ in range(1000 if quick else 8000)]
     mixes = list(opener_mixes(2))
     texts += mixes if not quick else mixes[::2] + ['select 1; # ', ';# ']
+    # left-context independence at a statement start: every opener (pair of openers in the thorough tier) directly
+    # behind the separator of the previous statement, followed by material containing a `;` - the piece is lexed
+    # once in context and once on its own (resplit)
+    from ..lexrec import OPENERS
+    import itertools as _it
+    heads = list(OPENERS) if quick else [a + b for a, b in _it.product(OPENERS, repeat=2)] + list(OPENERS)
+    for o in heads:
+        for sep in ('\n', ' ', '\r\n', ''):
+            for suf in (';b', 'x;b', ' ;b'):
+                texts.append('a;' + sep + o + suf)
     fx = repo_texts()
     texts += [t[:300] for t in fx]
     texts += ['select 1;\n' + t[:250] + ';\nselect 2' for t in fx]
